@@ -609,7 +609,7 @@ static std::vector<Real> net_ask(Built& b, const NOp& o) {
   }
   return v;
 }
-static void case_c04_net(const Spec& spec, int alg0, int first, int maxlen) {
+static void case_c04_net(const Spec& spec, int alg0, int first, int maxlen, bool warm) {
   std::vector<NOp> ops{{"solve", 0}, {"residuals", 1}, {"trans_VWV", 2}, {"degrees_of_freedom", 3}, {"m_0", 4}, {"qxx(1,n)", 5}, {"qbb(2,2)", 6}, {"stdev_obs/wcoef_res", 7}, {"project_equations(A,b,w)", 8}, {"null_space", 9}, {"unknown_stdev/obs_control", 10}, {"lindep", 11},
                        {"update_points", 20}, {"update_observations", 21}, {"update_residuals", 22}, {"update_adjustment", 23}, {"set_algorithm(envelope)", 24, 0}, {"set_algorithm(cholesky)", 24, 1}, {"set_algorithm(gso)", 24, 2}};
   // the symbolic errors are declared once; every network built below shares them
@@ -626,6 +626,7 @@ static void case_c04_net(const Spec& spec, int alg0, int first, int maxlen) {
     if (last.kind < 20) {
       Built b; if (!fresh_net(b, alg0)) { sx::fail("generated input rejected", ""); return; }
       int alg = alg0; std::string desc; std::vector<Real> got;
+      if (warm) { b.net.IS->trans_VWV(); b.net.IS->qxx(1, 1); desc = "(adjusted network) "; }      // the history starts on a network that has been adjusted and queried
       for (size_t k = 0; k < seq.size(); k++) { const NOp& op = ops[seq[k]]; desc += (k ? "; " : "") + op.name; if (op.kind == 24) alg = op.a; std::vector<Real> r = net_ask(b, op); if (k + 1 == seq.size()) got = r; }
       const std::vector<Real>& want = fresh_answer(alg, last); nseq++;
       sx::check_true(got.size() == want.size(), "LocalNetwork history {" + desc + "} size of the answer", "");
@@ -837,7 +838,8 @@ static void gen_cases(const sx::Options& opt, std::vector<sx::Case>& cases) {
       add("net-c05/" + a + "/" + g + "/v" + std::to_string(variant) + "/" + ALGS[alg], "frames", [a, g, variant, alg] { case_c05_net(a, g, variant, alg); }); } }
   if (on("C04")) { int k = 0; for (auto& s : fam) { if (s.name != "lev5-fixed1/cov2" && s.name != "lev5-free-c2/cov1" && s.name != "vec4-fixed1/cov1") continue; int alg0 = (k++) % 3;
       for (int first = 0; first < 19; first++) { auto sp = std::make_shared<Spec>(s); int ml = th ? 3 : 2;
-        add("net-c04/" + s.name + "/" + ALGS[alg0] + "/first" + std::to_string(first), "LocalNetwork histories", [sp, alg0, first, ml] { case_c04_net(*sp, alg0, first, ml); }); } } }
+        add("net-c04/" + s.name + "/" + ALGS[alg0] + "/first" + std::to_string(first), "LocalNetwork histories", [sp, alg0, first, ml] { case_c04_net(*sp, alg0, first, ml, false); });
+        add("net-c04/" + s.name + "/" + ALGS[alg0] + "/adjusted-first" + std::to_string(first), "LocalNetwork histories", [sp, alg0, first, ml] { case_c04_net(*sp, alg0, first, ml, true); }); } } }
   std::vector<Spec> fam_en;      // the families with horizontal coordinates, written in the frame "en" (inconsistent with the default angle sense)
   for (auto& s : fam) { bool has_xy = false; for (auto& p : s.pts) if (p.has_xy) has_xy = true; if (!has_xy) continue; std::map<int,int> om; Spec t = transform(s, 5, om); t.name = s.name + "@en"; fam_en.push_back(t); }
   std::vector<Spec> fam12 = fam; for (auto& s : fam_en) fam12.push_back(s);
